@@ -164,6 +164,7 @@ def correspondence(ctx, model_available=True):
             if r.get("raise") != "HERAError":
                 res["spec_failures"].append({"what": "disassemble(%d) is not rejected: %r" % (v, r), "case": {"disassemble": v}})
         res["model_vs_impl_agree"] = agree
+    res["spec_failures"] += dis_command_oracle(rng, words if quick else rng.sample(words, 3000), outside)
     res["spec_failures"] = res["spec_failures"][:5]
     res["nontrivial"] = res["distribution"]["words_that_are_instructions"] + len(insts)
     res["rule"] = ("decode: %s; encode: %s valid operand tuples of every real instruction class; plus data / "
@@ -173,6 +174,41 @@ def correspondence(ctx, model_available=True):
                       "all" if not quick else "40 boundary-biased"))
     res["samples"] = [{"disassemble": hex(words[0])}, {"assemble": insts[0]}, {"assemble": other[5]}]
     return res
+
+
+def dis_command_oracle(rng, words, outside):
+    """The debugger's `dis <n>` is the same decoder with the same domain: a word prints what disassemble(word) prints,
+    an integer outside 0..0xFFFF is refused, never decoded (seed C05h reduced the argument to 16 bits first)."""
+    import dbgcases as dc
+    rs = dc.RealSession("SET(R1, 1)\nHALT()\n", {"big_stack": False, "init": [], "warn_return_on": True})
+    if not rs.ok:
+        return [{"what": "the debugger no longer loads a two-line program"}]
+    out = []
+    vals = [(w, rng.choice(["%d", "0x%x", "0b%s", "0o%o"])) for w in rng.sample(words, min(len(words), 60))]
+    vals += [(v, "%d") for v in outside] + [(v, "%d") for v in (-1, -2, -0x7FFF, -0x8000, -0x8001, -0xFFFF, -0x10000, 0x10000, 0x1FFFF, 1 << 40)]
+    vals += [(-(rng.randrange(1, 0x8001)), rng.choice(["%d", "-0x%x"])) for _ in range(20)]
+    for v, fmt in vals:
+        if fmt == "-0x%x":
+            lit = "-0x%x" % -v
+        elif fmt == "0b%s":
+            lit = "0b" + bin(v)[2:]
+        else:
+            lit = fmt % v
+        r = rs.command("dis " + lit)
+        shown = r["shell"].strip()
+        d = real_disassemble(v)
+        if r["exc"]:
+            out.append({"what": "debugger `dis %s` raised %s" % (lit, r["exc"]), "case": {"dis": lit}})
+        elif 0 <= v <= 0xFFFF and "ok" in d:
+            from hera.op import disassemble
+            with dc.captured():
+                want = str(disassemble(v))
+            if shown != want:
+                out.append({"what": "debugger `dis %s` prints %r, disassemble(%d) is %s" % (lit, shown, v, want), "case": {"dis": lit}})
+        elif not shown.startswith("Error"):
+            out.append({"what": "debugger `dis %s` prints %r: %d is %s and must be refused" %
+                                (lit, shown, v, "outside 0..0xFFFF" if not 0 <= v <= 0xFFFF else "not an instruction"), "case": {"dis": lit}})
+    return out
 
 
 def search(ctx, breaks):
